@@ -93,10 +93,10 @@ impl Check for C11 {
         ]
     }
     fn cases(&self, tier: Tier) -> u64 {
-        tier.pick(600, 20_000)
+        tier.pick(1_500, 20_000)
     }
     fn min_nontrivial(&self, tier: Tier) -> u64 {
-        tier.pick(20_000, 500_000)
+        tier.pick(50_000, 500_000)
     }
     fn shard_budget(&self, tier: Tier) -> std::time::Duration {
         tier.pick(std::time::Duration::from_secs(120), std::time::Duration::from_secs(1200))
